@@ -119,8 +119,18 @@ def pair : Handler := fun args =>
     sh a pa.ihash ++ " || " ++ sh b pb.ihash
   | _, _ => "bad-op"
 
+/-- sortprops title:csize:mid …  → the MIDs in the order `sortProposals` gives -/
+def sortprops : Handler := fun a =>
+  match a.mapM (fun t => match t.splitOn ":" with
+      | [ti, cs, mi] => match fromHexField ti, cs.toInt?, fromHexField mi with
+        | some ti, some cs, some mi => some ({ code := 67, msgType := [], mid := mi, title := ti, size := 0, csize := cs } : Proposal)
+        | _, _, _ => none
+      | _ => none) with
+  | some ps => joinSp ((sortProposals ps).map fun p => toHexField p.mid)
+  | none => "bad-op"
+
 def ops : List (String × Handler) := [
-  ("session", session), ("pair", pair),
+  ("session", session), ("pair", pair), ("sortprops", sortprops),
   ("cleanstr", fun a => match allBytes a with | some [s] => toHexField (cleanString s) | _ => "bad-op"),
   ("errline", fun a => match allBytes a with
     | some [s] => (match errLine s with | some m => "err " ++ toHexField m | none => "nil") | _ => "bad-op"),
